@@ -543,6 +543,7 @@ func init() {
 		Run: func(c *core.Ctx) []ob {
 			out := scanCtorSib(c)
 			out = append(out, core.Floor("CTORSIB", nil, "fields of multi-constructor types", c.Stats["ctorsib_fields"], 3)...)
+			out = append(out, control(c, "CTORSIB", scanCtorSib, "Gen.key")...)
 			return out
 		}})
 }
